@@ -432,7 +432,18 @@ pub fn c11_strategy() -> BoxedStrategy<SchedConvCase> {
                     SchedConvCase { case, groups, collect_first: false, enter_order: None, cuts, hold_after_read: Some(p), tape }
                 }
                 (Some(p), 2) if p + 1 < n => {
-                    // answer the streamed one (its handler reads the body), successors follow: plain pipeline on two tasks
+                    // answer the streamed one (its handler reads the body), successors follow: plain pipeline on two tasks;
+                    // now and then it is answered or dropped with its body untouched or partly read
+                    let mut case = case;
+                    if rk & 0x40 != 0 {
+                        case.progs[p].read = if rk & 0x20 != 0 { ReadPlan::None } else { ReadPlan::Sizes(vec![1]) };
+                        if matches!(case.conv.reqs[p].framing, Framing::Chunked { .. }) {
+                            case.progs[p].read = ReadPlan::None;
+                        }
+                        if rk & 0x80 != 0 {
+                            case.progs[p].finish = Finish::Drop;
+                        }
+                    }
                     let groups: Vec<Vec<usize>> = vec![(0..=p).collect(), (p + 1..n).collect()];
                     SchedConvCase { case, groups, collect_first: false, enter_order: None, cuts, hold_after_read: None, tape }
                 }
